@@ -607,3 +607,18 @@ Proof.
   - apply N.ltb_lt in E. lia.
   - lia.
 Qed.
+
+Theorem costed_steps : forall cfg m m' afs host cap fuel fi args T o,
+  inject cfg m = Some m' -> ameter_funcs cfg m = Some afs ->
+  trun host cap m' afs fuel fi args = (T, o) ->
+  forall p q, T = p ++ q -> N.of_nat (length (works p)) <= ticks p.
+Proof.
+  intros cfg m m' afs host cap fuel fi args T o Hi Ha H p q Hpq.
+  destruct (metered_run_prepaid_exact _ _ _ _ _ _ _ _ _ _ _ Hi Ha H) as [Hp _].
+  specialize (Hp p q Hpq). pose proof (works_le_work p). eapply N.le_trans; eassumption.
+Qed.
+
+Theorem run_is_sem_run : forall cfg m m' afs host cap fuel fi args,
+  inject cfg m = Some m' -> ameter_funcs cfg m = Some afs ->
+  snd (trun host cap m' afs fuel fi args) = run host cap m' fuel fi args.
+Proof. intros. apply trun_erase. eapply inject_erase; eassumption. Qed.
